@@ -106,8 +106,14 @@ def gen_case(rng, thorough):
     if topo == "diamond":
         ops += [{"op": "setParents", "loc": "a", "parents": ["l", "r"]}, {"op": "setParents", "loc": "l", "parents": ["top"]}, {"op": "setParents", "loc": "r", "parents": ["top"]}]
     facts = [gen_fact(rng) for _ in range(rng.randint(0, 6))]
-    for i, f in enumerate(facts):
+    for i, f in enumerate(list(facts)):
         ops.append({"op": "addFact", "loc": rng.choice(locs), "id": "f%d" % i, "fact": f})
+        if parent and rng.random() < 0.25:
+            # ids are per location: the same id in the location and in one of its ancestors names two facts, and both are searched
+            other = rng.choice([l for l in locs if l != ops[-1]["loc"]])
+            f2 = dict(f) if rng.random() < 0.5 else gen_fact(rng)
+            ops.append({"op": "addFact", "loc": other, "id": "f%d" % i, "fact": f2})
+            facts.append(f2)
     for _ in range(rng.randint(2, 5)):
         g = QG(rng)
         as_rule = rng.random() >= 0.75
